@@ -16,6 +16,18 @@ from props.c03 import S_STATE
 JSON_PEST = os.path.join(REPO, "grammars/src/grammars/json.pest")
 
 
+def json_grammar_text():
+    """the grammar JsonParser is derived from: the files named by the #[grammar = ".."] attributes in front of
+    `pub struct JsonParser` in grammars/src/lib.rs, concatenated in that order (what pest_derive does with several attributes)"""
+    lib = open(os.path.join(REPO, "grammars/src/lib.rs")).read()
+    m = re.search(r"((?:\s*#\[[^\]]*\]\s*)+)pub struct JsonParser\s*;", lib)
+    files = re.findall(r'#\[grammar\s*=\s*"([^"]+)"\]', m.group(1)) if m else []
+    inl = re.findall(r'#\[grammar_inline\s*=\s*"((?:[^"\\]|\\.)*)"\]', m.group(1)) if m else []
+    if not files and not inl: files = ["grammars/json.pest"]
+    parts = [open(os.path.join(REPO, "grammars/src", f)).read() for f in files] + [bytes(x, "utf-8").decode("unicode_escape") for x in inl]
+    return re.sub(r"//[^\n]*", "", "\n".join(parts))
+
+
 # ---------------------------------------------------------------- RFC 8259 recogniser over (possibly symbolic) bytes
 class Reject(Exception):
     pass
@@ -196,7 +208,7 @@ def templates():
 
 
 def run(ctx):
-    text = re.sub(r"//[^\n]*", "", open(JSON_PEST).read())
+    text = json_grammar_text()
     P, oks, d = gensym.load([text], tag="c18")
     if not oks[0]: raise Inconclusive("generator failed on json.pest")
     binary = gensym.build_native(d, tag="c18")
@@ -263,7 +275,7 @@ def run(ctx):
 
 def replay(ctx, path):
     d = json.load(open(path))
-    text = re.sub(r"//[^\n]*", "", open(JSON_PEST).read())
+    text = json_grammar_text()
     P, oks, dd = gensym.load([text], tag="c18")
     b = gensym.build_native(dd, tag="c18")
     rep = gensym.run_native(b, [f"0 json {d['input']}"])[0]
